@@ -122,6 +122,8 @@ impl Curve {
         // We need at least three samples to extrapolate, so let's do nothing if we have fewer.
         if self.wcet_of_n_jobs.len() >= 3 {
             while self.wcet_of_n_jobs.len() < n - 1 {
+                #[cfg(feature = "verif-hooks")]
+                crate::verif_hooks::tick("wcet::Curve::extrapolate");
                 self.wcet_of_n_jobs.push(self.extrapolate_next())
             }
         }
@@ -152,6 +154,23 @@ impl ExtrapolatingCurve {
         ExtrapolatingCurve {
             prefix: Rc::new(RefCell::new(costfn)),
         }
+    }
+}
+
+#[cfg(feature = "verif-hooks")]
+impl ExtrapolatingCurve {
+    /// Identity and current contents of the shared extrapolation cache.
+    pub fn verif_cache(&self) -> (usize, Vec<u64>) {
+        let ptr = Rc::as_ptr(&self.prefix) as *const () as usize;
+        let prefix = self.prefix.borrow();
+        (
+            ptr,
+            prefix
+                .wcet_of_n_jobs
+                .iter()
+                .map(|s| u64::from(*s))
+                .collect(),
+        )
     }
 }
 
